@@ -36,6 +36,13 @@ theorem lex_total (s : List Byte) :
     ∃ ts, lexAll s = ts ++ [eofTok] ∧ (∀ t ∈ ts, t.kind ≠ .eof) ∧ ts.length ≤ s.length :=
   lexAll_shape s.length s (Nat.le_refl _)
 
+/-- Faithfulness of the lexer: what a `NextToken` call consumes is skipped junk (whitespace, unexpected
+characters) followed by *exactly* the token's value — token values are contiguous slices of the input,
+nothing is rewritten, reordered or invented. -/
+theorem lex_token_is_slice (s : List Byte) :
+    s.take (nextToken s).2 = s.take (junkLen s) ++ (nextToken s).1.val :=
+  nextToken_slice s
+
 /-! ## layout insensitivity -/
 
 /-- For every list of well-formed source tokens, **any** whitespace layout that keeps apart the token pairs
@@ -108,7 +115,7 @@ example : lexAll (b "'x ORDER BY y LIMIT 1' limit_x `from`") =
     [⟨.string, b "'x ORDER BY y LIMIT 1'"⟩, ⟨.ident, b "limit_x"⟩, ⟨.qident, b "`from`"⟩, eofTok] := by decide
 /-- totality on junk: NUL ends the input, invalid bytes are skipped, an unterminated literal is still a token -/
 example : lexAll [35, 255, 97, 0, 98] = [⟨.ident, [97]⟩, eofTok] ∧ lexAll (b "! 'abc") = [⟨.string, b "'abc"⟩, eofTok] := by decide
-example : nextToken (b "  !x") = (⟨.ident, b "x"⟩, 4) := by decide
+example : nextToken (b "  !x") = (⟨.ident, b "x"⟩, 4) ∧ junkLen (b "  !x") = 3 := by decide
 end examples
 
 /-! ## tie to the source (regenerated on every run from the Go source by factsgen) -/
